@@ -5,8 +5,11 @@ EXTENDS XmlWriter, Json
 CONSTANTS MaxLen, Mode
 Hostile == {"p", "lt", "gt", "amp", "quot", "apos", "sp", "cdend", "entity", "comment", "lbrace", "rbrace", "dollar", "astral", "rtl", "numref", "tag", "pi",
             "zwnj", "rlm", "zwsp"}      \* zero-width non-joiner (Persian spelling), right-to-left mark, zero-width space: data, not blanks
+\* text that LOOKS like a function call the converter acts on elsewhere (in expression cells): in a text place it is text.
+\* Each is a whole string of its own; a hostile class may follow it.
+FunctionLike == {"fn_pulldata", "fn_search", "fn_itext", "fn_now"}
 VARIABLE hs
-GInit == IF Mode = "dom" THEN dom \in Doms /\ hs = <<>> ELSE dom = [k |-> "none"] /\ hs = <<>>
+GInit == IF Mode = "dom" THEN dom \in Doms /\ hs = <<>> ELSE dom = [k |-> "none"] /\ hs \in ({<<>>} \cup {<<f>> : f \in FunctionLike})
 GNext == Mode = "str" /\ Len(hs) < MaxLen /\ \E c \in Hostile : hs' = Append(hs, c) /\ UNCHANGED dom
 GSpec == GInit /\ [][GNext]_<<dom, hs>>
 Emit == PrintT(ToJson(IF Mode = "dom" THEN [dom |-> dom] ELSE [classes |-> hs]))
